@@ -111,6 +111,9 @@ def units(tier):
     us = [{"terms": [[t, tn] for t, tn in ch]} for ch in chunks(terms_for(tier), 10)]
     us.append({"extras": True})
     us.append({"adapters": True})
+    from .. import scale
+    for n in scale.sizes(tier):
+        us.append({"scale": n})
     return us
 
 
@@ -248,6 +251,26 @@ def run_term(t, tn, tier, r):
 
 def run_unit(unit, tier):
     r = UnitResult()
+    if unit.get("scale"):
+        from .c03 import scale_cases, srepr
+        n = unit["scale"]
+        for t, v in scale_cases(n):
+            d = T.mk(t)
+            r.states += 1
+            b = rt.build(d, v, {})
+            case = {"scale": [T.show(t)[:60], n]}
+            if b[0] != "ok":
+                r.case(nontrivial=True, outcome="build-failed", validated=1)
+                r.violation("C01/build-rejects-domain-value/scale:" + T.sig_of(t), case, "%s.build(<%d units>) -> %r" % (T.show(t), n, b[:2]))
+                continue
+            p = rt.parse(d, b[1], {})
+            ok = p[0] == "ok" and p[2] == len(b[1]) and matches(T.norm(v) if not isinstance(v, (bytes, str, int)) else v, p[1])
+            r.case(nontrivial=True, outcome="ok" if ok else "differs", transitions=2, validated=1)
+            if not ok:
+                r.violation("C01/roundtrip-differs/scale:" + T.sig_of(t), case, "%s: the %d-byte encoding of a value of %d units parses to %s (consumed %s)" % (
+                    T.show(t), len(b[1]), n, srepr(p[1]) if p[0] == "ok" else repr(p[:2]), p[2] if p[0] == "ok" else "-"))
+        r.sample({"scale": n, "formats": len(scale_cases(n))})
+        return r
     if unit.get("adapters"):
         run_adapters(r)
         return r
@@ -269,6 +292,8 @@ def run_unit(unit, tier):
 
 
 def replay(case):
+    if "scale" in case:
+        return [v for v in run_unit({"scale": case["scale"][1]}, "quick").violations if v["case"] == case]
     if "adapter" in case:
         r = UnitResult(); run_adapters(r)
         return [v for v in r.violations if v["case"] == case]
